@@ -28,6 +28,7 @@ type Profile struct {
 	WheelBias    bool // custom expiry: short creation TTLs (wheel level 0/1), reads extending to a coarser level
 	SmallReadBuf bool // one read-buffer stripe (16 slots): read events get dropped
 	NoCustomExp  bool // only the built-in expiry policies (reads never shorten a deadline)
+	MidBound     bool // maximum between a third and the whole of the key space (eviction passes with several victims and arrivals)
 }
 
 func logUniform(r *simrt.Rng, lo, hi int64) int64 {
@@ -107,8 +108,14 @@ func GenCfg(r *simrt.Rng, p *Profile) Cfg {
 		if r.Intn(8) == 0 {
 			c.Max = uint64(20 + r.Intn(200))
 		}
+		if p.MidBound {
+			c.Max = uint64(c.Keys/3 + 1 + r.Intn(c.Keys))
+		}
 	case "weight":
 		c.Max = uint64(1 + r.Intn(3*c.Keys))
+		if p.MidBound {
+			c.Max = uint64(c.Keys + r.Intn(2*c.Keys+1))
+		}
 		n := 1 + r.Intn(4)
 		for i := 0; i < n; i++ {
 			switch r.Intn(6) {
